@@ -23,11 +23,11 @@
 (*                            on_interrupt, which only stores the atomic latch)                *)
 (*   handler of fd          = host data callback (CbData ... CbEnd), may re-enter the API      *)
 (*   Apbp::SetSemaphore     = SemSetA (acquire the recursive mutex, or in the bits, compute    *)
-(*                            new_signal) ; handler WITH THE MUTEX HELD ; SemSetC (update the  *)
-(*                            master signal, release)                                          *)
+(*                            new_signal, master signal) ; handler WITH THE MUTEX HELD ;       *)
+(*                            SemSetC (release)                                                *)
 (*   Apbp::MaskSemaphore    = SemMaskA (acquire the recursive mutex, store the mask, compute   *)
 (*                            new_signal) ; handler WITH THE MUTEX HELD, ON THE CALLING THREAD, *)
-(*                            when the signal rises ; SemMaskC (master signal, release)         *)
+(*                            when the signal rises ; SemMaskC (release); master signal in A   *)
 (*                            (repaired in bf7856c; before that it only stored the mask)        *)
 (*   DataChannel::SetDisableInterrupt = SetDis: takes the channel mutex since 2b7c59d; the      *)
 (*                            code as first pinned had NO LOCK there (defect D7, kept behind    *)
@@ -204,14 +204,15 @@ SemSetA(S, t, op, rt) ==
         s == S.sem[o] | (op.v & SemFull)
         new == SemNew(s, S.mask[o])
         hnd == IF o = "fc" THEN Op("Trig", "fc", 0, 0) ELSE Op("CbSem", "fd", 0, 0)
-        S1 == [S EXCEPT !.sem[o] = s, !.held[l] = t,
-                        !.ls = Touch(S, t, l, {<<"mask", o, 0>>}, {<<"sem", o, 0>>})]
+        \* semaphore_master_signal = semaphore_master_signal || new_signal is stored here, BEFORE the handler
+        \* (repaired in 7a1934c; before that it was stored in the last part, see ApbpReent.tla)
+        S1 == [S EXCEPT !.sem[o] = s, !.sig[o] = @ \/ new, !.held[l] = t,
+                        !.ls = Touch(S, t, l, {<<"mask", o, 0>>}, {<<"sem", o, 0>>, <<"sig", o, 0>>})]
     IN  R(S1, rt, (IF new THEN <<hnd>> ELSE <<>>) \o <<Op("SemSetC", o, 0, B2N(new))>>)
-\* ... last part: semaphore_master_signal = semaphore_master_signal || new_signal; unlock
+\* ... last part: unlock
 SemSetC(S, t, op, rt) ==
     LET o == op.o  l == SemLock(o)
-    IN  R([S EXCEPT !.sig[o] = @ \/ (op.v = 1), !.ls = Touch(S, t, l, {}, {<<"sig", o, 0>>}),
-                    !.held[l] = "none"], rt, <<>>)
+    IN  R([S EXCEPT !.held[l] = "none"], rt, <<>>)
 SemClrBits(S, t, o, bits, rt) ==
     LET s == S.sem[o] & (SemFull - (bits & SemFull))
     IN  R([S EXCEPT !.sem[o] = s, !.sig[o] = SemNew(s, S.mask[o]),
@@ -227,14 +228,14 @@ SemMaskA(S, t, op, rt) ==
         new == SemNew(S.sem[o], m)
         call == new /\ ~ S.sig[o]
         hnd == IF o = "fc" THEN Op("Trig", "fc", 0, 0) ELSE Op("CbSem", "fd", 0, 0)
-        S1 == [S EXCEPT !.mask[o] = m, !.held[l] = t,
-                        !.ls = Touch(S, t, l, {<<"sem", o, 0>>, <<"sig", o, 0>>}, {<<"mask", o, 0>>})]
+        \* semaphore_master_signal = new_signal is stored here, BEFORE the handler (7a1934c)
+        S1 == [S EXCEPT !.mask[o] = m, !.sig[o] = new, !.held[l] = t,
+                        !.ls = Touch(S, t, l, {<<"sem", o, 0>>, <<"sig", o, 0>>}, {<<"mask", o, 0>>, <<"sig", o, 0>>})]
     IN  R(S1, rt, (IF call THEN <<hnd>> ELSE <<>>) \o <<Op("SemMaskC", o, 0, B2N(new))>>)
-\* ... last part: semaphore_master_signal = new_signal; unlock
+\* ... last part: unlock
 SemMaskC(S, t, op, rt) ==
     LET o == op.o  l == SemLock(o)
-    IN  R([S EXCEPT !.sig[o] = (op.v = 1), !.ls = Touch(S, t, l, {}, {<<"sig", o, 0>>}),
-                    !.held[l] = "none"], rt, <<>>)
+    IN  R([S EXCEPT !.held[l] = "none"], rt, <<>>)
 SemGetMask(S, t, op, rt) ==
     R([S EXCEPT !.ls = Touch(S, t, SemLock(op.o), {<<"mask", op.o, 0>>}, {})], S.mask[op.o], <<>>)
 SemSig(S, t, op, rt) ==
